@@ -43,8 +43,11 @@ class CopyPropagate:
             ):
                 # direct assignment: x = y
                 # substitute all occurences of this definition of `x` with `y`
-                if len(def_use.uses[d]) > 0:
-                    # optimization: only propagate if there is at least one use
+                if any(isinstance(u, Var) for u in def_use.uses[d]):
+                    # only propagate if there is a read to replace: an element
+                    # store `x[i] = e` or a call `x(...)` uses `x` too, but the
+                    # substitution leaves those alone, and reporting a change
+                    # that changes nothing keeps `simplify` going forever
                     prop[d] = d.site.expr
 
         if not prop:
